@@ -1098,10 +1098,11 @@ impl StateMachine for FileStateMachine {
 
     fn entry_term(
         &self,
-        entry_id: u64,
+        _entry_id: u64,
     ) -> Option<u64> {
-        let data = self.data.read();
-        data.values().find(|(_, index)| *index == entry_id).map(|(_, term)| *term)
+        // The map keeps (value, term) per key, not the index that wrote it: the term of an
+        // index cannot be answered from here.
+        None
     }
 
     /// Thread-safe: called serially by single-task CommitHandler
